@@ -95,13 +95,16 @@ class KeyHandler(HTMLHandlerBase):
 
         if model is None:
             model = models.Key()
-        new_key = flask.request.form['new_key'] == '1'
+        new_key = flask.request.form.get('new_key') == '1'
         try:
             if new_key:
                 model.hkid = KeyMaterial(hex=flask.request.form['hkid']).hex
             model.hkey = KeyMaterial(hex=flask.request.form['hkey']).hex
-        except (ValueError) as err:
+        except (ValueError, KeyError) as err:
             flask.flash(f'Invalid values: {err}', 'error')
+            return self.get(kpk)
+        if new_key and models.Key.get(hkid=model.hkid) is not None:
+            flask.flash(f'Duplicate KID {model.hkid}', 'error')
             return self.get(kpk)
         model.computed = flask.request.form.get('computed', 'off') == 'on'
         if new_key:
@@ -127,11 +130,15 @@ class KeyHandler(HTMLHandlerBase):
                 "error": f'CSRF failure: {err}'
             }
         if result['error'] is None:
-            kid = models.KeyMaterial(kid)
+            try:
+                kid = models.KeyMaterial(kid)
+                if key:
+                    key = models.KeyMaterial(key)
+            except (ValueError, TypeError) as err:
+                result['error'] = f'Invalid KID or key: {err}'
+        if result['error'] is None:
             computed = False
-            if key:
-                key = models.KeyMaterial(key)
-            else:
+            if not key:
                 key = models.KeyMaterial(
                     raw=PlayReady.generate_content_key(kid.raw))
                 computed = True
